@@ -9,7 +9,7 @@ PROPS = "Props/C03.v"
 COQ_CHECK = ("Model.C03", "check")
 COQ_FALLBACK = None
 COQ_IMPORTS = ""
-SHARD = 60
+SHARD = 150
 RULE = ("random masks (densities 0.1-0.9, plus single pixels, rings with holes, two components) inside frames up to 9x9 whose kernel "
         "footprint stays inside the frame; kernels kh,kw in {1,3,5,7} independently with signed integer / quarter entries, asymmetric; "
         "images, blurring images and mapping matrices with integer, k/4, k/8192 or +-{1,3}*2^-30 entries of either sign, dense and sparse "
@@ -44,6 +44,11 @@ RULE = ("random masks (densities 0.1-0.9, plus single pixels, rings with holes, 
         "no_blur, normalize=True and .normalized with sums +-2^j), mask / kernel / array pixel scales and origins all different, mapping "
         "matrices with 0 columns, masks without any unmasked pixel, the all-zero kernel, one mask with 256 unmasked pixels, every call made twice with the same object and the "
         "argument's contents and dtype compared afterwards. "
+        "DIRECTED-KERNEL stream: one-hot kernels (entry 1 and entry c != 1) at every cell of every odd shape 1..7 x 1..7 through the "
+        "whole-frame convolution (with and without mask), and for sampled cells (all cells in the thorough tier) and two-hot / "
+        "centre-1-plus-cancelling / identity-plus-2^-30 kernels the full pipeline (whole frame, with mask, masked array, Convolver image / "
+        "no-blurring / identity mapping matrix, noise-free simulator -> apply_mask -> convolver -> zero residual); the same directed kernels "
+        "are mixed into the fresh, history, input-kind and simulator streams. "
         "Entry points: Convolver.convolve_image / convolve_image_no_blurring / convolve_image_no_blurring_interpolation / convolve_mapping_matrix, "
         "Kernel2D.convolved_array_from / convolved_array_with_mask_from, SimulatorImaging.via_image_from -> apply_mask -> convolver, "
         "Imaging(...) -> apply_mask -> apply_over_sampling -> convolver. "
@@ -130,6 +135,56 @@ def conv_ref(img, K):
             out[y][x] = t
     return out
 
+# ------------------------------------------------------------------ directed kernels (rare states random entries never reach)
+def one_hot(kh, kw, a, b, c=Fraction(1)):
+    K = [[Fraction(0)] * kw for _ in range(kh)]; K[a][b] = Fraction(c); return K
+def is_pow2(s):
+    s = abs(Fraction(s)); n, d = s.numerator, s.denominator
+    return n != 0 and n & (n - 1) == 0 and d & (d - 1) == 0
+DK_KINDS = ["one", "onec", "two", "centre1", "idtiny", "twoc"]
+DK_PAIRS = [(Fraction(1), Fraction(1)), (Fraction(1), Fraction(-1)), (Fraction(1, 2), Fraction(1, 2)), (Fraction(2), Fraction(-1)),
+            (Fraction(1), Fraction(1, 2 ** 30)), (Fraction(3), Fraction(-3)), (Fraction(1), Fraction(3)), (Fraction(-1), Fraction(-1)),
+            (Fraction(1), Fraction(0))]
+DK_C = [Fraction(2), Fraction(-1), Fraction(1, 2), Fraction(3), Fraction(-3, 4), Fraction(1, 2 ** 30), Fraction(4), Fraction(-2)]
+def directed_kernel(rng, kh, kw, kind, pos=None, nonneg=False, pow2=False, tiny=True):
+    """kernels that a shortcut of the kind `is this the identity kernel / is there anything to blur` may misjudge: a single entry
+    (1 or c != 1) at ANY position (a unit shift, a basis kernel), two entries (sum 1, sum 0, one of them at the centre or not),
+    centre 1 plus entries that cancel (sum 1, centre 1, yet not the identity), centre 1 plus an entry of 2^-30 (identity within 1e-8).
+    nonneg: no negative entries; pow2: the sum must be +-2^j (so that K / sum K is exact); tiny=False: no entries of 2^-30 (for
+    streams whose image values are not integers / quarters, where such products would be rounded)"""
+    cells = [(a, b) for a in range(kh) for b in range(kw)]
+    centre = (kh // 2, kw // 2)
+    if pos is None: pos = rng.choice(cells)
+    others = [p for p in cells if p != pos]
+    if kind == "one" or not others: 
+        if kind in ("one", "two", "centre1", "idtiny"): return one_hot(kh, kw, pos[0], pos[1])
+        kind = "onec"
+    if kind == "onec":
+        cs = [c for c in DK_C if (c > 0 or not nonneg) and (is_pow2(c) or not pow2) and (tiny or c.denominator <= 4)]
+        return one_hot(kh, kw, pos[0], pos[1], rng.choice(cs))
+    if kind in ("two", "twoc"):
+        prs = [p for p in DK_PAIRS if p[1] != 0 and (min(p) >= 0 or not nonneg) and (is_pow2(sum(p)) or not pow2) and (tiny or p[1].denominator <= 4)]
+        c1, c2 = rng.choice(prs)
+        if kind == "twoc": pos = centre; others = [p for p in cells if p != pos]
+        K = one_hot(kh, kw, pos[0], pos[1], c1); q = rng.choice(others); K[q[0]][q[1]] = c2
+        return K
+    if kind == "centre1" and len(cells) >= 3 and not nonneg:
+        K = one_hot(kh, kw, centre[0], centre[1]); o = [p for p in cells if p != centre]
+        q1, q2 = rng.sample(o, 2); v = Fraction(rng.choice([1, 2, 3]), rng.choice([1, 4]))
+        K[q1[0]][q1[1]] = v; K[q2[0]][q2[1]] = -v
+        return K
+    # idtiny (also the fallback): the centre is 1 and one other entry is tiny (2^-30) or, when the sum must be a power of two, 1 or 3
+    K = one_hot(kh, kw, centre[0], centre[1]); q = rng.choice([p for p in cells if p != centre])
+    K[q[0]][q[1]] = rng.choice([Fraction(1), Fraction(3)]) if (pow2 or not tiny) else Fraction(rng.choice([1, 3] if nonneg else [1, -1, 3]), 2 ** 30)
+    return K
+def dk_positions(rng, kh, kw):
+    """sample of positions for the full pipeline: the corners, the centre, the neighbours of the centre, the edge mid-points, two random"""
+    cy, cx = kh // 2, kw // 2
+    pts = {(0, 0), (0, kw - 1), (kh - 1, 0), (kh - 1, kw - 1), (cy, cx), (0, cx), (kh - 1, cx), (cy, 0), (cy, kw - 1),
+           (max(cy - 1, 0), cx), (cy, min(cx + 1, kw - 1))}
+    for _ in range(2): pts.add((rng.randrange(kh), rng.randrange(kw)))
+    return sorted(pts)
+
 MASK_HOW = ["plain", "edited", "coords", "copy"]
 KERNEL_HOW = ["plain", "edited", "arith", "native"]
 IMAGE_HOW = ["plain", "arith", "native", "applied", "edited", "neg"]
@@ -143,6 +198,7 @@ def gen_inputs(tier, rng):
         m = rand_mask(rng, H, W, kh, kw, rng.choice(styles))
         if m is None: continue
         K = rand_kernel(rng, kh, kw, quarters=(i % 5 == 0))
+        if i % 9 == 7: K = directed_kernel(rng, kh, kw, DK_KINDS[(i // 9) % 6])      # one-hot / two-hot / near-identity kernels
         nun = sum(1 for r in m for b in r if not b)
         seed = rng.randrange(10 ** 9)
         # magnitudes: the whole case rescaled by a power of two (exact): values down to ~1e-10 / up to ~1e13, tiny / huge kernels
@@ -153,7 +209,7 @@ def gen_inputs(tier, rng):
         fine = (i % 11 == 2)
         if fine: K = [[v + Fraction(rng.choice([-1, 0, 1, 3]), 2 ** 30) for v in r] for r in K]
         for op in (["convolve", "noblur", "matrix", "init"] if i % 3 else ["convolve", "matrix", "whole", "init"]):
-            yield {"op": op, "m": m, "K": sk(K), "seed": seed, "sparse": bool(i % 2), "vs": vs, "ks": ks, "ints": fine, "zs": i % 4 == 1}
+            yield {"op": op, "m": m, "K": sk(K), "seed": seed, "sparse": bool(i % 2), "vs": vs, "ks": ks, "ints": fine or any(v.denominator > 4 for r in K for v in r), "zs": i % 4 == 1}
         # the whole operator, extracted on basis images (unit image / unit blurring image), for small masks
         nb = blur_count(m, kh, kw)
         if i % 6 == 3 and nun + nb <= 14:
@@ -200,7 +256,9 @@ def gen_inputs(tier, rng):
         m = rand_mask(rng, H, W, kh, kw, rng.choice(styles[:5]))
         m2 = rand_mask(rng, H, W, kh, kw, "random")
         if m is None or m2 is None: continue
-        yield {"op": "hist", "m": m, "m2": m2, "K": sk(rand_kernel(rng, kh, kw, quarters=(i % 4 == 0))),
+        Kh = rand_kernel(rng, kh, kw, quarters=(i % 4 == 0))
+        if i % 3 == 1: Kh = directed_kernel(rng, kh, kw, DK_KINDS[(i // 3) % 6], tiny=False)
+        yield {"op": "hist", "m": m, "m2": m2, "K": sk(Kh),
                "K2": sk(rand_kernel(rng, kh, kw)), "seed": rng.randrange(10 ** 9), "sparse": bool(i % 2),
                "vs": rng.choice([0, 0, 0, -30, 30]), "ks": 0,
                "how": {"mask": MASK_HOW[i % 4], "kernel": KERNEL_HOW[(i // 2) % 4], "image": IMAGE_HOW[i % 6]}}
@@ -219,6 +277,41 @@ def gen_inputs(tier, rng):
         m = rand_mask(rng, H, W, kh, kw, "full"); K = rand_kernel(rng, kh, kw, quarters=True); seed = rng.randrange(10 ** 9)
         for op in ("init", "convolve"):
             yield {"op": op, "m": m, "K": sk(K), "seed": seed, "sparse": False, "vs": 0, "ks": 0}
+    # DIRECTED-KERNEL stream: one-hot kernels (entry 1 and entry c != 1) at EVERY position of every odd shape (1..7 per axis) through
+    # the whole-frame convolution (unit shifts / basis kernels: the whole operator, kernel side), and for a sample of positions
+    # (all of them in the thorough tier) and for two-hot / centre-1-plus-cancelling / identity-plus-2^-30 kernels the full pipeline:
+    # whole frame, with mask, masked array, Convolver (image, no blurring, matrix), simulator -> apply_mask -> convolver -> residual
+    for kh in KS:
+        for kw in KS:
+            cells = [(a, b) for a in range(kh) for b in range(kw)]
+            centre = (kh // 2, kw // 2); off = [p for p in cells if p != centre]
+            corners = {(0, 0), (0, kw - 1), (kh - 1, 0), (kh - 1, kw - 1)}
+            if tier == "thorough": full1, fullc = set(cells), set(cells)
+            else:
+                # quick tier, full pipeline: two off-centre positions (one of them on the kernel's border) and sometimes the centre
+                border = [p for p in off if p[0] in (0, kh - 1) or p[1] in (0, kw - 1)]
+                full1 = set(([rng.choice(border)] if border else []) + ([rng.choice(off)] if off else [centre]))
+                fullc = {rng.choice(cells)}
+            for (a, b) in cells:
+                # which whole-frame entry point(s): every position through at least one, corners / the centre through both
+                ep = 2 if ((a, b) in corners or (a, b) == centre) else (a + b) % 2
+                yield gen_dk(rng, kh, kw, "one", (a, b), "all" if (a, b) in full1 else "whole", ep, tier)
+                yield gen_dk(rng, kh, kw, "onec", (a, b), "all" if (a, b) in fullc else "whole", (a + b + 1) % 2, tier)
+            for j in range(12 if tier == "thorough" else 2):
+                kind = ["two", "centre1", "idtiny", "twoc"][(j + (kh + kw) // 2) % 4] if tier == "thorough" else \
+                       [["two", "centre1"], ["idtiny", "twoc"]][(kh // 2 + kw // 2) % 2][j]
+                yield gen_dk(rng, kh, kw, kind, None, "all", 2, tier)
+
+def gen_dk(rng, kh, kw, kind, pos, steps, ep, tier):
+    K = directed_kernel(rng, kh, kw, kind, pos)
+    lean = tier != "thorough"
+    if steps == "all":
+        H, W = rng.randint(kh + 1, min(10, kh + (2 if lean else 3))), rng.randint(kw + 1, min(10, kw + (2 if lean else 3)))
+        m = rand_mask(rng, H, W, kh, kw, rng.choice(["random", "random", "full", "ring", "single"]))
+    else:
+        H, W = rng.randint(kh, kh + (1 if lean else 2)), rng.randint(kw, kw + (1 if lean else 2))
+        m = [[rng.random() < 0.4 for _ in range(W)] for _ in range(H)]
+    return {"op": "dk", "K": sk(K), "m": m, "seed": rng.randrange(10 ** 9), "steps": steps, "dkind": kind, "ep": ep, "lean": lean}
 
 IMG_KINDS = ["int64", "f32", "bool", "list", "view", "sub", "kern", "int32", "f64"]
 MAT_KINDS = ["int64", "bool", "f32", "fortran", "view", "uint8", "int8", "f64"]
@@ -240,6 +333,7 @@ def gen_kinds(rng, i):
         s0 = sum(v for r in K for v in r)
         K[kh // 2][kw // 2] += rng.choice([Fraction(1), Fraction(2), Fraction(-4), Fraction(1, 2), Fraction(8), Fraction(-1)]) - s0
     if kk == "fine": K = [[v + Fraction(rng.choice([-1, 1, 3]), 2 ** 30) for v in r] for r in K]
+    if kk in ("plain", "sub", "slim", "f32") and (i // 12) % 2 == 0: K = directed_kernel(rng, kh, kw, DK_KINDS[(i + i // 12) % 6])
     return {"op": "kinds", "m": m, "K": sk(K), "seed": rng.randrange(10 ** 9), "kk": kk,
             "ik": IMG_KINDS[(i // 2) % len(IMG_KINDS)], "mk": MAT_KINDS[(i // 3) % len(MAT_KINDS)], "mask_kind": MASK_KINDS[(i // 5) % 4],
             "mps": SCALES[i % 5], "kps": SCALES[(i // 2 + 1) % 5], "aps": SCALES[(i // 3 + 2) % 5],
@@ -268,6 +362,9 @@ def gen_sim(rng, i):
         K[kh // 2][kw // 2] += tgt - s0
     elif all(v == 0 for r in K for v in r) and rng.random() < 0.7:
         K[kh // 2][kw // 2] = Fraction(1)
+    if i % 3 == 1 and not even and not psf_none:
+        # a directed PSF: a unit shift / basis kernel, two entries, centre 1 plus cancelling entries, the identity plus one more entry
+        K = directed_kernel(rng, kh, kw, DK_KINDS[(i // 3) % 6], nonneg=not signed, pow2=normalize)
     if psf_none: K = [[Fraction(int((a, b) == (1, 1))) for b in range(3)] for a in range(3)]      # sum 1: normalising changes nothing
     nimg = 1 if i % 2 else 2
     images = []
@@ -323,6 +420,7 @@ def run_case(inp):
     if op == "sim": return run_sim(aa, inp)
     if op == "hist": return run_hist(aa, inp)
     if op == "kinds": return run_kinds(aa, inp)
+    if op == "dk": return run_dk(aa, inp)
     vs, ks = p2(inp.get("vs", 0)), p2(inp.get("ks", 0))
     m = inp["m"]; K = [[Fraction(v) * ks for v in r] for r in inp["K"]]
     rng = random.Random(inp["seed"])
@@ -815,6 +913,108 @@ def run_kinds(aa, inp):
     if defaults_fingerprint(aa) != fp0: bad.append("a shared default-argument object of an entry point was modified")
     nontrivial = nun >= 2 and sum(1 for v in kflat if v != 0) > 1
     return {"coq": cases[0], "extra_coq": cases[1:], "py_ok": (False if bad else None), "kind": "kinds", "nontrivial": nontrivial,
+            "out": {"steps": len(cases), "problems": bad}, "detail": {"problems": bad}}
+
+# ------------------------------------------------------------------ directed kernels through every entry point
+def run_dk(aa, inp):
+    import random
+    rng = random.Random(inp["seed"])
+    m = inp["m"]; H, W = len(m), len(m[0])
+    K = [[Fraction(v) for v in r] for r in inp["K"]]; kh, kw = len(K), len(K[0]); kflat = [v for r in K for v in r]
+    kernel = aa.Kernel2D.no_mask(values=[fl(r) for r in K], pixel_scales=1.0)
+    mask = aa.Mask2D(mask=np.array(m, dtype=bool), pixel_scales=1.0)
+    cases, bad = [], []
+    allf = [[False] * W for _ in range(H)]
+    nun = sum(1 for r in m for b in r if not b)
+    def grid(lo=-9): return [[Fraction(rng.randint(lo, 9), rng.choice([1, 1, 4])) for _ in range(W)] for _ in range(H)]
+    def whole(fn, tag, mm, nat, **kw_):
+        res = call_res(fn, **kw_)
+        o = ("ok", fracs(res[1].slim)) if res[0] == "ok" else res
+        cases.append(f"(KWhole {cmask(mm)} {cqm(nat)} {cqm(K)} {cres(o, cqv)})")
+        if res[0] == "ok": bad.extend(result_problems(res[1], mm, tag))
+        if fracs(kernel.native) != kflat: bad.append(f"the kernel was modified by {tag}")
+    # whole frame, array without mask
+    ep, lean = inp.get("ep", 2), bool(inp.get("lean"))
+    nat = grid()
+    if ep in (0, 2):
+        arr = aa.Array2D.no_mask(values=[fl(r) for r in nat], pixel_scales=1.0)
+        whole(kernel.convolved_array_from, "convolved_array_from", allf, nat, array=arr)
+        if fracs(arr.slim) != [v for r in nat for v in r]: bad.append("convolved_array_from modified its argument")
+    # raw native values + a mask (no footprint condition)
+    if ep in (1, 2):
+        nat2 = grid()
+        whole(kernel.convolved_array_with_mask_from, "convolved_array_with_mask_from", m, nat2, array=np.array([fl(r) for r in nat2]), mask=mask)
+    if inp["steps"] == "all":
+        # masked array: zero outside its own mask
+        natz = [[Fraction(0) if m[y][x] else nat[y][x] for x in range(W)] for y in range(H)]
+        marr = aa.Array2D(values=[fl(r) for r in nat], mask=mask)
+        whole(kernel.convolved_array_from, "convolved_array_from (masked array)", m, natz, array=marr)
+        # the masked convolver
+        try:
+            c = aa.Convolver(mask=mask, kernel=kernel)
+            out = ("ok", (int(c.pixels_in_mask), int(c.pixels_in_blurring_mask), [[bool(b) for b in r] for r in c.blurring_mask]))
+        except Exception as e:
+            c = None; out = ("raise", exn_name(e))
+        cases.append(f"(KInit {cmask(m)} {cqm(K)} " + cres(out, lambda v: ctup([cnat(v[0]), cnat(v[1]), cmask(v[2])])) + ")")
+        if c is not None:
+            bm = mask.derive_mask.blurring_from(kernel_shape_native=(kh, kw)); nb = int(bm.pixels_in_mask)
+            fine = any(v.denominator > 4 for v in kflat)          # entries of 2^-30: integer images keep every sum exact
+            img, bimg = rand_vals(rng, nun, False, fine), rand_vals(rng, nb, False, fine)
+            io = aa.Array2D(values=fl(img), mask=mask)
+            bo = aa.Array2D(values=fl(bimg), mask=bm) if nb else aa.Array2D(values=np.zeros(0), mask=bm)
+            res = c.convolve_image(image=io, blurring_image=bo)
+            cases.append(f"(KConvolve {cmask(m)} {cqm(K)} {cqv(img)} {cqv(bimg)} {cqv(fracs(res.slim))})")
+            bad.extend(result_problems(res, m, "convolve_image"))
+            res = c.convolve_image_no_blurring(image=io)
+            cases.append(f"(KNoBlur {cmask(m)} {cqm(K)} {cqv(img)} {cqv(fracs(res.slim))})")
+            bad.extend(result_problems(res, m, "convolve_image_no_blurring"))
+            # the operator on the identity mapping matrix (every basis image at once) next to a random column
+            # (quick tier, larger masks: two of the basis columns)
+            cols = list(range(nun)) if (nun <= 5 or not lean) else sorted(rng.sample(range(nun), 2))
+            M = [[Fraction(int(r == q)) for q in cols] + [Fraction(rng.randint(-9, 9), 4)] for r in range(nun)]
+            res = c.convolve_mapping_matrix(mapping_matrix=np.array([fl(r) for r in M]))
+            cases.append(f"(KMatrix {cmask(m)} {cqm(K)} {cqm(M)} {cqm([fracs(r) for r in np.asarray(res)])})")
+            if fracs(kernel.native) != kflat: bad.append("the kernel was modified by the Convolver")
+        # noise-free simulation with this PSF -> apply_mask -> convolver: zero residual
+        s = sum(kflat)
+        image = grid(lo=0); flat = [v for r in image for v in r]
+        img_o = aa.Array2D.no_mask(values=[fl(r) for r in image], pixel_scales=1.0)
+        norms = [False] + ([True] if is_pow2(s) else [])
+        if lean and len(norms) == 2: norms = [bool(inp["seed"] % 2)]
+        for normalize in norms:
+            P = [[v / s for v in r] for r in K] if normalize else K
+            lo = min(v for r in conv_ref(image, P) for v in r)
+            sky = Fraction(0) if lo >= 0 else Fraction(int(-lo) + 1)
+            sim = aa.SimulatorImaging(exposure_time=1.0, psf=kernel, background_sky_level=float(sky), normalize_psf=normalize,
+                                      add_poisson_noise_to_data=False, include_poisson_noise_in_noise_map=False,
+                                      noise_if_add_noise_false=1.0, noise_seed=1)
+            res = call_res(sim.via_image_from, image=img_o)
+            if res[0] == "ok":
+                d = res[1]; data = fracs(d.data.slim)
+                out = ("ok", ([fracs(r) for r in np.array(d.psf.native)], data))
+            else: d = None; out = res
+            cases.append(f"(KSim {cq(sky)} {cbool(True)} {cbool(normalize)} {cqm(image)} {cqm(K)} " +
+                         cres(out, lambda v: ctup([cqm(v[0]), cqv(v[1])])) + ")")
+            if fracs(img_o.slim) != flat: bad.append("the caller's image was modified by via_image_from")
+            if fracs(kernel.native) != kflat: bad.append("the caller's kernel was modified by the simulator")
+            if d is None or len(data) != H * W or c is None: continue
+            dsm = d.apply_mask(mask=mask)
+            if [[bool(b) for b in r] for r in np.array(dsm.mask)] != [list(r) for r in m]:
+                bad.append("masked dataset's mask differs from the applied (interior) mask"); continue
+            md = fracs(dsm.data.slim)
+            cases.append(f"(KMasked {cqm(image)} {cqv(data)} {cmask(m)} {cqv(md)})")
+            cases.append(f"(KWhole {cmask(m)} {cqm(image)} {cqm(P)} (Ok {cqv(md)}))")
+            bml = [[bool(b) for b in r] for r in np.array(bm)]
+            iv = [image[y][x] for y in range(H) for x in range(W) if not m[y][x]]
+            bv = [image[y][x] for y in range(H) for x in range(W) if not bml[y][x]]
+            blurred = dsm.convolver.convolve_image(image=aa.Array2D(values=fl(iv), mask=dsm.mask),
+                                                   blurring_image=aa.Array2D(values=fl(bv), mask=bm) if bv else aa.Array2D(values=np.zeros(0), mask=bm))
+            bo_ = fracs(blurred.slim)
+            cases.append(f"(KConvolve {cmask(m)} {cqm(P)} {cqv(iv)} {cqv(bv)} {cqv(bo_)})")
+            if len(md) != len(bo_) or any(a != b for a, b in zip(md, bo_)):
+                bad.append(f"non-zero residual of the generating image (normalize_psf={normalize})")
+    nontrivial = nun >= 2 and kh * kw > 1
+    return {"coq": cases[0], "extra_coq": cases[1:], "py_ok": (False if bad else None), "kind": "dk", "nontrivial": nontrivial,
             "out": {"steps": len(cases), "problems": bad}, "detail": {"problems": bad}}
 
 # ------------------------------------------------------------------ simulator -> apply_mask -> convolver
